@@ -560,7 +560,7 @@ func (w *World) addTrace(t *Trace) {
 	// ghost sorts from the target
 	var recvT, retT, argT types.Type
 	p := w.pkgByPath(t.Pkg)
-	if p != nil {
+	if p != nil || t.Kind == "extern" {
 		switch t.Kind {
 		case "interface":
 			i := strings.LastIndex(t.Key, ".")
@@ -588,6 +588,18 @@ func (w *World) addTrace(t *Trace) {
 							}
 						}
 					}
+				}
+			}
+		case "extern":
+			if sig := w.externSig(t.Key); sig != nil {
+				if sig.Recv() != nil {
+					recvT = sig.Recv().Type()
+				}
+				if sig.Params().Len() > 0 {
+					argT = sig.Params().At(0).Type()
+				}
+				if sig.Results().Len() > 0 {
+					retT = sig.Results().At(0).Type()
 				}
 			}
 		case "func":
@@ -625,7 +637,7 @@ func (w *World) traceFor(u *Unit, callee *ssa.Function, c *ssa.CallCommon, contr
 		return nil
 	}
 	for _, t := range w.Traces {
-		if t.Kind == contract.Kind && t.Key == contract.Key && t.Pkg == contract.Pkg {
+		if t.Kind == contract.Kind && t.Key == contract.Key && (t.Pkg == contract.Pkg || t.Kind == "extern") {
 			return &traceInfo{tr: t, hasRecv: c.Signature().Recv() != nil || c.IsInvoke()}
 		}
 	}
@@ -642,7 +654,10 @@ func (t *Trace) matches(w *World, callee *ssa.Function, c *ssa.CallCommon) bool 
 		// possibly a field call: conservatively match field traces
 		return t.Kind == "field"
 	}
-	return contract != nil && t.Kind == contract.Kind && t.Key == contract.Key && t.Pkg == contract.Pkg
+	if contract == nil && callee != nil {
+		contract = w.externContract(callee)
+	}
+	return contract != nil && t.Kind == contract.Kind && t.Key == contract.Key && (t.Pkg == contract.Pkg || t.Kind == "extern")
 }
 
 func (f *Frame) recordTrace(ti *traceInfo, st *state, args []Val, rs []Val) {
@@ -748,4 +763,48 @@ func (w *World) instAxioms(e *SpecEnv, sp *SpecFunc, args []Val) {
 			u.trusted["axiom "+ax.Name+" (instantiated at use): "+ax.Text] = true
 		}()
 	}
+}
+
+
+// externSig resolves "(*pkg/path.Type).Method", "(pkg/path.Type).Method" or "pkg/path.Func".
+func (w *World) externSig(key string) *types.Signature {
+	if strings.HasPrefix(key, "(") {
+		i := strings.Index(key, ").")
+		if i < 0 {
+			return nil
+		}
+		tn := strings.TrimPrefix(key[1:i], "*")
+		ptr := strings.HasPrefix(key[1:i], "*")
+		j := strings.LastIndex(tn, ".")
+		if j < 0 {
+			return nil
+		}
+		p := w.allTypes[tn[:j]]
+		if p == nil {
+			return nil
+		}
+		obj, ok := p.Scope().Lookup(tn[j+1:]).(*types.TypeName)
+		if !ok {
+			return nil
+		}
+		var t types.Type = obj.Type()
+		if ptr {
+			t = types.NewPointer(t)
+		}
+		m, _, _ := types.LookupFieldOrMethod(t, true, p, key[i+2:])
+		if f, ok := m.(*types.Func); ok {
+			return f.Type().(*types.Signature)
+		}
+		return nil
+	}
+	j := strings.LastIndex(key, ".")
+	if j < 0 {
+		return nil
+	}
+	if p := w.allTypes[key[:j]]; p != nil {
+		if f, ok := p.Scope().Lookup(key[j+1:]).(*types.Func); ok {
+			return f.Type().(*types.Signature)
+		}
+	}
+	return nil
 }
